@@ -4,7 +4,7 @@ methods compared byte-for-byte at L1."""
 import copy, hashlib, json, os, re
 from concurrent.futures import ThreadPoolExecutor
 import gen, scrape, vlib
-from p_numbering import top_ifaces, chain_names
+from p_numbering import top_ifaces, chain_names, scrape_tables
 
 
 def all_ifaces(fs):
@@ -27,7 +27,14 @@ def make_revision(rng, fs):
         if r < 0.6:
             new_members.append(("method", ctx.fresh("n"), gen.gen_params(ctx, nmax=5), rng.random() < 0.2, None))
         elif r < 0.85:
-            new_members.append(("error", ctx.fresh("NE")))
+            olde = [m[1] for m in members if m[0] == "error" and m[1].lower() != m[1]]
+            taken = {m[1] for m in members + new_members if m[0] == "error"}
+            if olde and rng.random() < 0.35 and rng.choice(olde).lower() not in taken:
+                # a new error that differs from an old one of the same interface only in letter case
+                cand = [e.lower() for e in olde if e.lower() not in taken]
+                new_members.append(("error", rng.choice(cand)))
+            else:
+                new_members.append(("error", ctx.fresh("NE")))
         else:
             p = rng.choice(gen.PRIMS)
             new_members.append(("const", p, ctx.fresh("NK"), gen.rand_literal(rng, p)))
@@ -187,7 +194,24 @@ def run(ctx):
         fb = fragments(os.path.join(work, "cases", "%dB" % k), B)
         stable = set(ms)
         fdiff = [key for key, txt in fa.items() if (key[1], key[2]) in stable and fb.get(key) != txt]
-        meta[k] = {"frag_checked": sum(1 for key in fa if (key[1], key[2]) in stable), "fdiff": fdiff, "nstable": len(ms)}
+        # the error constants every backend prints for the stable (interface, error) pairs: each value
+        # an old name had must still be a value of that name (names compared without letter case: the
+        # Rust backend upper-cases them)
+        ediff = []
+        try:
+            ta = dict(scrape_tables(os.path.join(work, "cases", "%dA" % k), A, emitted[(k, "A")], "errs_raw"))
+            tb = dict(scrape_tables(os.path.join(work, "cases", "%dB" % k), B, emitted[(k, "B")], "errs_raw"))
+            for lab in ta:
+                ra, rb = dict(ta[lab]), dict(tb.get(lab, []))
+                for (D, e) in es:
+                    va = {v for n, v in ra.get(D, []) if n.lower() == e.lower()}
+                    vb = {v for n, v in rb.get(D, []) if n.lower() == e.lower()}
+                    if va and not va <= vb:
+                        ediff.append((lab, D, e, sorted(va), sorted(vb)))
+        except Exception as ex:
+            res["corr_broken"].append({"kind": "scraper", "detail": "error tables of pair %d could not be scraped: %r" % (k, ex)})
+            ediff = []
+        meta[k] = {"frag_checked": sum(1 for key in fa if (key[1], key[2]) in stable), "fdiff": fdiff, "nstable": len(ms), "ediff": ediff}
         d = ""
         for tag, h in (("a", ha), ("b", hb)):
             d += "Definition f%s_%d : list ast := %s.\nDefinition o%s_%d : sx := SL [SA 1; %s].\nDefinition p%s_%d : sx := %s.\n" % (
@@ -212,6 +236,8 @@ def run(ctx):
             res["failures"].append(dict(payload, what="a pre-existing member changed its number or plan after an append-only revision"))
         if fl[6]:
             res["failures"].append(dict(payload, what="an appended method reuses an op-code the old revision dispatches"))
+        if meta[k].get("ediff"):
+            res["failures"].append(dict(payload, what="the value a backend prints for a pre-existing error changed: %s" % meta[k]["ediff"][:4]))
         if meta[k]["fdiff"]:
             res["failures"].append(dict(payload, what="generated fragment of a pre-existing method changed: %s" % meta[k]["fdiff"][:4]))
         nfrag += meta[k]["frag_checked"]
